@@ -7,6 +7,12 @@ mkdir -p bin
 cp /repo/go.sum harness/go.sum 2>/dev/null
 ( cd harness && flock ../bin/.lock go build -tags verif -o ../bin/vchk ./cmd/vchk ) || exit 1
 case "${1:-}" in
+  C23|all)
+    if [ "${VERIF_TIER:-quick}" = "thorough" ] || [ "${1:-}" = "all" ]; then
+      ( cd harness && CGO_ENABLED=0 go build -tags verif -o ../bin/c23nocgo ./cmd/c23nocgo ) || echo "note: nocgo build unavailable"
+    fi ;;
+esac
+case "${1:-}" in
   C25|all) ( cd harness && flock ../bin/.lock go build -race -tags verif -o ../bin/vchk.race ./cmd/vchk ) || exit 1 ;;
 esac
 exit 0
